@@ -273,6 +273,11 @@ class MacroEval:
             if not isinstance(a, S):
                 return B(opf(a.v, b.v), z3.Or(a.null, b.null), z3.Or(a.err, b.err))
             return scmp(a, b, opf)
+        if isinstance(e, exp.Between):
+            a, lo, hi = self.ev(e.this, env), self.ev(e.args["low"], env), self.ev(e.args["high"], env)
+            if isinstance(a, S):
+                raise Unsupported("BETWEEN on strings")
+            return B(z3.And(a.v >= lo.v, a.v <= hi.v), z3.Or(a.null, lo.null, hi.null), z3.Or(a.err, lo.err, hi.err))
         if isinstance(e, exp.In):
             a = self.ev(e.this, env)
             rs = [seq(a, self.ev(x, env)) for x in e.expressions]
